@@ -489,11 +489,14 @@ def case_to_gallina(case, res, sessions=None):
     rname = {l: r for r, l in ctx.lname_of.items()}
     pk_of = {t["name"]: t["pkey"] for t in case["cfg"]["types"]}
 
-    def gq(lt, k):
+    def gq(lt, k, kind):
         pk = pk_of[rname[lt]]
         comps = list(k) if isinstance(k, (tuple, list)) else [k]
-        return f"({gN(ctx.tid(lt))},{gZ(ctx.key(k))},{ctx.gobj({'_pkey_' + a: v for a, v in zip(pk, comps)})})"
-    qobs = glist(glist(gq(lt, k) for (lt, k) in (c.get("qobjs") or []) if lt in rname)
+        # attribute 0 (never a real attribute: ids start at 1) carries the kind of the entry
+        o = gobj(dict({'_pkey_' + a: v for a, v in zip(pk, comps)}, __qkind={"added": 0, "modified": 1, "removed": 2}[kind]),
+                 dict(ctx.attrs.map, __qkind=0))
+        return f"({gN(ctx.tid(lt))},{gZ(ctx.key(k))},{o})"
+    qobs = glist(glist(gq(lt, k, kind) for (lt, k, kind) in (c.get("qobjs") or []) if lt in rname)
                  for ob in res["iters"] for c in ob["calls"])
     return (f"(with_qobs (mk_ccase {ctx.gccfg(case)} {goutcomes(sessions['outcomes'])} {allbus} {glist(iters)})"
             f" {qobs})")
